@@ -463,6 +463,9 @@ func stName(s absState) string { return [...]string{"nil", "empty", "non-empty"}
 
 // mergeMapRule: stores into the result happen for the first operand's entries before the second's.
 func mergeMapRule(e *Env, name string) bool {
+	if !earlyNilOnlyWhenBothEmpty(e, name) {
+		return false
+	}
 	if decided, ok := mergeMapSSA(e, name); decided {
 		return ok
 	}
@@ -541,7 +544,50 @@ func mergeMapRule(e *Env, name string) bool {
 	return r.Check(okOrder && storeOK, "R09.1c", key+"#later-wins", fmt.Sprintf("mappings are united key-wise with later values winning: entries of the first operand are stored before those of the second (found order %v, plain key/value store: %v)", order, storeOK), e.P.Pos(fd.Pos()))
 }
 
+// earlyNilOnlyWhenBothEmpty: a map combinator may return nil early only when BOTH operands are nil/empty;
+// `a == nil || b == nil` would drop the other operand's entries.
+func earlyNilOnlyWhenBothEmpty(e *Env, name string) bool {
+	fn := e.P.Func(inputRel, name)
+	if fn == nil || len(fn.Params) != 2 {
+		return true
+	}
+	key := inputRel + "." + name + "#early-nil-return"
+	ok, n := true, 0
+	for _, b := range fn.Blocks {
+		ret, isRet := b.Instrs[len(b.Instrs)-1].(*ssa.Return)
+		if !isRet || len(ret.Results) != 1 || !isNilConst(ret.Results[0]) {
+			continue
+		}
+		n++
+		var dom [2]bool
+		for _, ib := range fn.Blocks {
+			iff, isIf := ib.Instrs[len(ib.Instrs)-1].(*ssa.If)
+			if !isIf {
+				continue
+			}
+			for pi, prm := range fn.Params {
+				for _, onTrue := range []bool{true, false} {
+					if edgeImpliesEmpty(iff.Cond, onTrue, prm) && edgeDominates(ib, onTrue, ret) {
+						dom[pi] = true
+					}
+				}
+			}
+		}
+		if !dom[0] || !dom[1] {
+			ok = false
+			e.R.Violate("R09.1c", key, "the combinator returns nil on a path where only one operand is known to be nil/empty: the entries of the other operand are lost (a file that declares none of these keys erases those of the other files)", nil, e.P.Pos(ret.Pos()))
+		}
+	}
+	if ok && n > 0 {
+		e.R.Hold("R09.1c", key, fmt.Sprintf("%d early nil return(s), each behind nil/empty tests of both operands", n), e.P.Pos(fn.Pos()))
+	}
+	return ok
+}
+
 func mergeServicesRule(e *Env, name string) bool {
+	if !earlyNilOnlyWhenBothEmpty(e, name) {
+		return false
+	}
 	if decided, ok := mergeServicesSSA(e, name); decided {
 		return ok
 	}
